@@ -210,7 +210,17 @@ def _hybrid(chk, repo):
             "self.target = target()", "sampler does not work on a conditioned copy of the joint", init)
     # R6: cache coherence
     derived = _target_derived_keys(repo)
-    affected = sorted(k for k, v in derived.items() if v and k != "NUTS")
+    # sampler classes that are excluded from the state restore by an isinstance test on the way to set_state()
+    excluded = set()
+    if setst:
+        for t, lab in g.guards_of(setst[0]):
+            core, neg = t.ast, False
+            while isinstance(core, ast.UnaryOp) and isinstance(core.op, ast.Not):
+                core, neg = core.operand, not neg
+            if isinstance(core, ast.Call) and call_name(core) == "isinstance" and len(core.args) == 2 and (lab == "F") != neg:
+                cls_ = core.args[1].elts if isinstance(core.args[1], ast.Tuple) else [core.args[1]]
+                excluded |= {unparse(c_).split(".")[-1] for c_ in cls_}
+    affected = sorted(k for k, v in derived.items() if v and k not in excluded)
     stale = bool(setst) and bool(affected)
     # a recomputation after set_state would discharge the obligation
     recomputed = False
@@ -220,7 +230,7 @@ def _hybrid(chk, repo):
                 t = unparse(n.ast)
                 if any(f"sampler.{k}" in t and "=" in t for ks in derived.values() for k in ks) or "_recompute" in t or "_update_cache" in t:
                     recomputed = True
-    chk.add("C09-R6", f"{ci.qual}.step/set_state-after-retarget", not stale or recomputed, site(repo, setst[0].ast if setst else step),
+    chk.add("C09-R6", f"{ci.qual}.step/set_state-after-retarget({'|'.join(affected)})", not stale or recomputed, site(repo, setst[0].ast if setst else step),
             "target-derived caches are recomputed under the new conditional",
             f"set_state() restores {sorted({k for ks in derived.values() for k in ks})} captured under the previous conditional after "
             f"_set_target()/reinitialize() had recomputed them for the new one (samplers affected: {affected}): the next Metropolis ratio "
@@ -325,10 +335,15 @@ def _legacy(chk, repo):
     # continuation: the history of a further call is the stored sweeps FOLLOWED by the new columns (sweeps are stored at absolute indices Ns_old + i)
     from .common import match as _match, stmts as _stmts
     al = repo.method(ci, "_allocate_samples")[1]
-    forms = (["for: $p : self.par_names", "$S[$p]=np.hstack((self.samples[$p],$S[$p]))"], ["for: $p : self.par_names", "$S[$p]=np.hstack([self.samples[$p],$S[$p]])"],
-             ["for: $p : self.par_names", "$S[$p]=np.concatenate((self.samples[$p],$S[$p]),axis=1)"], ["for: $p : self.par_names", "$S[$p]=np.concatenate([self.samples[$p],$S[$p]],axis=1)"])
-    okc = any(_match(repo, ci, al, f_) is not None for f_ in forms)
-    recc = any(("hstack" in t or "concatenate" in t or "append" in t) and "self.samples[" in t for t, _ in _stmts(repo, ci, al))
+    joins = []
+    for c_ in ast.walk(al):
+        if isinstance(c_, ast.Call) and (call_name(c_) or "") in ("np.hstack", "np.concatenate", "np.append", "np.column_stack", "np.c_"):
+            seq = c_.args[0].elts if c_.args and isinstance(c_.args[0], (ast.Tuple, ast.List)) else list(c_.args)
+            pos = [i_ for i_, e_ in enumerate(seq) if any(isinstance(x_, ast.Subscript) and path_of(x_.value) == "self.samples" for x_ in ast.walk(e_))]
+            if pos:
+                joins.append((c_, pos, len(seq)))
+    recc = bool(joins)
+    okc = recc and all(pos == [0] and n_ >= 2 for _, pos, n_ in joins)
     chk.decide("C09-R4", f"{ci.qual}._allocate_samples/append", okc, recc, site(repo, al), "continuation history = [stored sweeps, new columns]",
                "on a continuation call the new (empty) columns are not appended BEHIND the stored sweeps: the sweeps are then written over earlier ones "
                "and the recorded history is not the sequence of states the sampler visited", al)
